@@ -42,7 +42,9 @@ RULE = ('cases: REL/RELA tables (both classes, byte orders, MIPS64, 0..many entr
         'all-zero entries (R_*_NONE, symbol 0, offset 0) as only / first / middle / last / run / several entries of every '
         'flavour incl. MIPS64, in sections, raw tables, histories and dynamic tables, iteration compared with indexing; '
         'dynamic images where [DT_REL[A], +SZ) contains / abuts / partially overlaps / equals / lies inside [DT_JMPREL, '
-        '+DT_PLTRELSZ) (same flavour), each table being what its own tags say; relocation application '
+        '+DT_PLTRELSZ) (same flavour), each table being what its own tags say; relocatable objects with 0xfeff / 0xff00 / more '
+        'section headers (e_shnum = 0, count in sh_size of header 0; SHT_NULL filler before or after the real sections) '
+        'whose .rel/.rela.debug_info must still be found and applied; relocation application '
         'on synthesized relocatable images for every (machine, flavour, type) with random S/A/V, overlapping and boundary '
         'offsets, error classes, relocation on/off, via get_dwarf_info and via RelocationHandler. distinct = hash(kind, '
         'abstract); non-trivial = at least one entry/word/relocation or an error case')
@@ -105,10 +107,19 @@ def build_elf(le, is64, machine, e_type, sections, segments=(), gap=b''):
         img += phdr(le, is64, typ, 4, o, vaddr, z, z)
     img += gap
     shoff = len(img)
+    # gABI extended numbering: from 0xff00 sections on, e_shnum = 0 and the count is sh_size of header 0;
+    # a string table index >= 0xff00 is e_shstrndx = SHN_XINDEX (0xffff) and sh_link of header 0
+    nsec = len(secs)
+    if nsec >= 0xff00:
+        secs[0] = dict(secs[0], size=nsec, link=nsec - 1)
+    rows = []
     for i, s in enumerate(secs):
-        img += shdr(le, is64, nameoff[i], s['type'], s.get('flags', 0), s.get('addr', 0), offs[i],
-                    s.get('size', len(s['data'])), s.get('link', 0), s.get('info', 0), s.get('align', 1), s.get('entsize', 0))
-    img[:ehsize] = ehdr(le, is64, e_type, machine, shoff, len(secs), len(secs) - 1, phoff, len(segments))
+        rows.append(shdr(le, is64, nameoff[i], s['type'], s.get('flags', 0), s.get('addr', 0), offs[i],
+                         s.get('size', len(s['data'])), s.get('link', 0), s.get('info', 0), s.get('align', 1),
+                         s.get('entsize', 0)))
+    img += b''.join(rows)
+    img[:ehsize] = ehdr(le, is64, e_type, machine, shoff, nsec if nsec < 0xff00 else 0,
+                        nsec - 1 if nsec < 0xff00 else 0xffff, phoff, len(segments))
     return bytes(img), offs
 
 
@@ -584,6 +595,26 @@ def gen_dyn_overlap(ctx, cases):
                                                           rng.choice(['segment', 'section']), rng.randrange(1 << 16)]))
 
 
+def gen_apply_many(ctx, cases):
+    """relocatable objects with about 0xff00 section headers (filler SHT_NULL headers before or after the real
+    sections): below the threshold e_shnum holds the count, from 0xff00 on e_shnum = 0 and the count is sh_size of
+    header 0.  The relocation section must be found wherever it sits."""
+    rng = ctx.rng
+    plan = [(0xff00, 'before'), (0xff00 + rng.randrange(1, 300), 'after'), (0xfeff, 'before')]
+    plan += [(rng.choice([0xff00, 0xff01, 0xffff, 0x10000, 0x10000 + rng.randrange(1, 500), 0xfeff]),
+              rng.choice(['before', 'after'])) for _ in range(ctx.scale(0, 9))]
+    for total, place in plan:
+        em = rng.choice([3, 40, 8, 62, 183, 258])
+        for _ in range(20):
+            le, is64, rela, data, symvals, ents = gen_apply_case(rng, em)
+            if ents:
+                break
+        name = ('.rela' if rela else '.rel') + '.debug_info'
+        # total = null + 3 debug + 1 reloc + symtab + strtab + filler + shstrtab
+        cases.append(('apply_many', [em, le, is64, total - 8, place, True, rng.choice(['dwarfinfo', 'handler']),
+                                     data, symvals, [[name, 4 if rela else 9, rela, ents, 1]]]))
+
+
 def gen(ctx):
     cases = []
     gen_tables(ctx, cases)
@@ -594,6 +625,7 @@ def gen(ctx):
     gen_apply_seq(ctx, cases)
     gen_zero_entries(ctx, cases)
     gen_dyn_overlap(ctx, cases)
+    gen_apply_many(ctx, cases)
     return cases
 
 
@@ -647,9 +679,11 @@ def evaluate(ctx, cases):
             w.h_wf = b1.add(['rents_wf', is64, mips64, rela, ents])
             w.h_spec = b1.add(['spec_hist_rel', is64, mips64, rela, ents, hist])
             w.h_hok = b1.add(['hist_ok', True, len(ents), hist])
-        elif kind in ('apply', 'apply_seq'):
+        elif kind in ('apply', 'apply_seq', 'apply_many'):
             if kind == 'apply':
                 em, le, is64, relocate, via, data, symvals, rsecs, gap = a
+            elif kind == 'apply_many':
+                em, le, is64, nfill, place, relocate, via, data, symvals, rsecs = a
             else:
                 em, le, is64, calls, data, symvals, rsecs, gap = a
             mips64 = is64 and em == EM['MIPS']
@@ -730,29 +764,45 @@ def evaluate(ctx, cases):
             else:
                 w.img, w.off = data + b'\x77' * 3, 0
             w.h_model = b2.add(['model_relr', le, is64, w.img, w.off, len(data), entsize])
-        elif kind in ('apply', 'apply_seq'):
+        elif kind in ('apply', 'apply_seq', 'apply_many'):
+            k0 = 0          # index shift of the real sections (filler headers in front of them)
             if kind == 'apply':
                 em, le, is64, relocate, via, data, symvals, rsecs, gap = a
+            elif kind == 'apply_many':
+                em, le, is64, nfill, place, relocate, via, data, symvals, rsecs = a
+                gap = b''
+                k0 = nfill if place == 'before' else 0
             else:
                 em, le, is64, calls, data, symvals, rsecs, gap = a
                 relocate = True
             symdata = b''.join(b1[h] for h in w.h_syms)
             nr = len(rsecs)
-            symidx = 4 + nr
+            symidx = 4 + nr + k0
             secs = [dict(name='.debug_info', type=1, data=data),
                     dict(name='.debug_abbrev', type=1, data=b'\x01\x11\x00\x00\x00\x00'),
                     dict(name='.debug_line', type=1, data=bytes((i * 37 + 11) % 256 for i in range(len(data))))]
             for r, h in zip(rsecs, w.h_rs):
-                secs.append(dict(name=r[0], type=r[1], data=b1[h], link=symidx, info=r[4],
+                secs.append(dict(name=r[0], type=r[1], data=b1[h], link=symidx, info=r[4] + k0 if r[4] else 0,
                                  entsize=entsize_of(is64, r[2]) if r[1] in (4, 9) else 0))
             secs.append(dict(name='.symtab', type=2, data=symdata, link=symidx + 1, info=1, entsize=24 if is64 else 16))
             secs.append(dict(name='.strtab', type=3, data=b'\0'))
+            if kind == 'apply_many':
+                filler = [dict(name='', type=0, data=b'')] * nfill
+                secs = filler + secs if place == 'before' else secs + filler
             w.img, w.offs = build_elf(le, is64, em, 1, secs, gap=gap)
             full = [dict(name='', type=0, data=b'')] + secs
             descs = [_sec_desc(s['name'], s['type'], w.offs[i], len(s['data']), s.get('link', 0), s.get('entsize', 0))
                      for i, s in enumerate(full)]
             descs.append(_sec_desc('.shstrtab', 3, w.offs[-1], 0, 0, 0))
-            if kind == 'apply':
+            if kind == 'apply_many':
+                nsec = len(descs)
+                if nsec >= 0xff00:
+                    descs[0] = _sec_desc('', 0, 0, nsec, nsec - 1, 0)       # header 0 as build_elf wrote it
+                e_shoff = len(w.img) - nsec * (64 if is64 else 40)
+                w.nsec = nsec
+                w.h_model = b2.add(['model_read_dwarf_file', le, is64, em, w.img, e_shoff, nsec if nsec < 0xff00 else 0,
+                                    descs, 1 + k0, relocate])
+            elif kind == 'apply':
                 w.h_model = b2.add(['model_read_dwarf', le, is64, em, w.img, descs, 1, relocate])
             else:
                 w.h_model = b2.add(['model_dwarf_seq', le, is64, em, w.img, descs, 1, [c[0] for c in calls]])
@@ -793,6 +843,9 @@ def evaluate(ctx, cases):
             _eval_apply(ctx, w, b1, b2)
         elif kind == 'apply_seq':
             _eval_apply_seq(ctx, w, b1, b2)
+        elif kind == 'apply_many':
+            _eval_apply_many(ctx, w, b1, b2)
+            w.img = None
         elif kind == 'dyn':
             _eval_dyn(ctx, w, b1, b2, drv)
         elif kind == 'dyn_overlap':
@@ -996,6 +1049,29 @@ def _eval_apply(ctx, w, b1, b2):
     ctx.bump('relocate', int(relocate))
     ctx.record('apply', w.a, impl=impl, spec=spec, model=model, in_domain=in_domain,
                nontrivial=len(ents) > 0 or is_err(spec), key=key)
+
+
+def _eval_apply_many(ctx, w, b1, b2):
+    from elftools.elf.relocation import RelocationHandler
+    em, le, is64, nfill, place, relocate, via, data, symvals, rsecs = w.a
+    def run():
+        elf = _open(w.img)
+        assert elf.num_sections() == w.nsec
+        if via == 'dwarfinfo':
+            return ok(elf.get_dwarf_info(relocate_dwarf_sections=relocate).debug_info_sec.stream.getvalue())
+        section = elf.get_section_by_name('.debug_info')
+        stream = io.BytesIO()
+        stream.write(section.data())
+        h = RelocationHandler(elf)
+        rs = h.find_relocations_for_section(section)
+        if rs is not None:
+            h.apply_section_relocations(stream, rs)
+        return ok(stream.getvalue())
+    impl = impl_call(run)
+    spec, wf = b2[w.h_spec], b2[w.h_wf] == 1
+    ctx.bump('many_sections', '%s-%s' % ('extended' if w.nsec >= 0xff00 else 'plain', place))
+    ctx.record('apply_many', w.a, impl=impl, spec=spec, model=b2[w.h_model], in_domain=bool(w.conventional and wf),
+               nontrivial=True, key='apply-many-sections')
 
 
 def _eval_apply_seq(ctx, w, b1, b2):
